@@ -113,6 +113,81 @@ def make_gp(torch, gpytorch, X, y, kernel, noise, mean_const, lik=None):
     return m, lik
 
 
+NOISE_KINDS = ("homo", "fixed", "fixedadd", "hetero")          # Structured.tla NoiseKinds
+
+
+def table_noise_model(torch, gpytorch, Xtab, nv):
+    """stub noise model of HeteroskedasticNoise: the noise variance is a function of the input - here the table Xtab[p] -> nv[p]
+    (nearest row); off the table the value of the nearest row"""
+    class TableNoise(torch.nn.Module):
+        def forward(s_, x, *a, **k):
+            idx = torch.cdist(x.to(Xtab), Xtab).argmin(-1)
+            mean = nv[idx]
+            return gpytorch.distributions.MultivariateNormal(mean, torch.diag_embed(torch.full_like(mean, 1e-6)))
+    return TableNoise()
+
+
+def smooth_noise_model(torch, gpytorch, w, lo, hi):
+    """stub noise model: noise(x) = lo + (hi - lo) sigmoid(3 x . w)"""
+    class SmoothNoise(torch.nn.Module):
+        def forward(s_, x, *a, **k):
+            mean = lo + (hi - lo) * torch.sigmoid(3.0 * (x @ w.to(x)))
+            return gpytorch.distributions.MultivariateNormal(mean, torch.diag_embed(torch.full_like(mean, 1e-6)))
+    return SmoothNoise()
+
+
+def make_lik(torch, gpytorch, nk, s2, nv=None, noise_model=None):
+    """a likelihood of the Gaussian family for the noise model nk of Structured.tla; -> (likelihood, needs the inputs as mll / likelihood params)"""
+    D = torch.float64
+    L = gpytorch.likelihoods
+    if nk == "homo":
+        lik = L.GaussianLikelihood().to(D)
+        with torch.no_grad():
+            lik.noise = torch.tensor(float(s2), dtype=D)
+        return lik, False
+    if nk == "fixed":
+        return L.FixedNoiseGaussianLikelihood(noise=nv.clone().to(D)).to(D), False
+    if nk == "fixedadd":
+        lik = L.FixedNoiseGaussianLikelihood(noise=nv.clone().to(D), learn_additional_noise=True).to(D)
+        with torch.no_grad():
+            lik.second_noise = torch.tensor(float(s2), dtype=D)
+        return lik, False
+    if nk == "hetero":
+        from gpytorch.likelihoods.gaussian_likelihood import _GaussianLikelihoodBase
+        from gpytorch.likelihoods.noise_models import HeteroskedasticNoise
+        from gpytorch.constraints import GreaterThan
+        lik = _GaussianLikelihoodBase(noise_covar=HeteroskedasticNoise(noise_model, noise_constraint=GreaterThan(1e-4, transform=None, inv_transform=None)))
+        return lik.to(D), True
+    raise core.Machinery("unknown noise kind %r" % nk)
+
+
+def lik_noise_vector(torch, lik, X, needs_params):
+    """diagonal of the observation noise covariance the likelihood adds at the training inputs (read back from the likelihood)"""
+    n = X.shape[-2]
+    with torch.no_grad():
+        nc = lik._shaped_noise_covar(torch.Size([n]), X) if needs_params else lik._shaped_noise_covar(torch.Size([n]))
+        return nc.diagonal(dim1=-1, dim2=-2).detach().clone().to(torch.float64).expand(*nc.shape[:-2], n)
+
+
+def make_gp_with(torch, gpytorch, X, y, kernel, lik, mean_const, batch_shape=None):
+    """ExactGP with ConstantMean and the given likelihood (no hyperparameter of the likelihood is touched)"""
+    bs = torch.Size(batch_shape or [])
+
+    class M(gpytorch.models.ExactGP):
+        def __init__(s_):
+            super().__init__(X, y, lik)
+            s_.mean_module = gpytorch.means.ConstantMean(batch_shape=bs)
+            s_.covar_module = kernel
+
+        def forward(s_, x):
+            return gpytorch.distributions.MultivariateNormal(s_.mean_module(x), s_.covar_module(x))
+    m = M().to(torch.float64)
+    with torch.no_grad():
+        mc = torch.as_tensor(mean_const, dtype=torch.float64)
+        m.mean_module.constant = mc.expand(bs) if bs else mc
+    return m
+
+
 def dense_wrapper_class(gpytorch):
     class DenseOf(gpytorch.kernels.Kernel):
         """the SAME approximate matrix as `inner`, as a plain dense kernel (prediction_strategy = the default one)"""
@@ -403,7 +478,7 @@ def strategy_worker(item):
 
 
 def _conditional(torch, Kxx, Ksx, Kss, noise, y, mx, ms):
-    A = Kxx + noise * torch.eye(Kxx.shape[-1], dtype=torch.float64)
+    A = Kxx + torch.diag_embed(torch.as_tensor(noise, dtype=torch.float64).expand(Kxx.shape[-1]))
     L = torch.linalg.cholesky(A)
     mean = ms + (Ksx @ torch.cholesky_solve((y - mx).unsqueeze(-1), L)).squeeze(-1)
     cov = Kss - Ksx @ torch.cholesky_solve(Ksx.transpose(-1, -2), L)
@@ -454,6 +529,13 @@ def build_structured(torch, gpytorch, c, g):
     y = torch.sin(3 * X.sum(-1)) + 0.1 * torch.randn(n, generator=g, dtype=D)
     yf = torch.sin(3 * Xf.sum(-1)) + 0.1 * torch.randn(Xf.shape[0], generator=g, dtype=D)
     lik = gpytorch.likelihoods.GaussianLikelihood().to(D)
+    aux = dict(nk="homo", needs=False)
+    if fam == "sgpr" and c.get("nk", "homo") != "homo":
+        # the other noise models of the Gaussian family (Structured.tla NoiseKinds): per-point variances pairwise different
+        nv = 0.05 + 0.5 * torch.rand(n, generator=g, dtype=D)
+        nm = smooth_noise_model(torch, gpytorch, torch.randn(d, generator=g, dtype=D), 0.05, 0.6) if c["nk"] == "hetero" else None
+        lik, needs = make_lik(torch, gpytorch, c["nk"], c["noise"], nv, nm)
+        aux = dict(nk=c["nk"], needs=needs, twin=lambda: make_lik(torch, gpytorch, c["nk"], c["noise"], nv, nm)[0])
     if fam == "sgpr":
         bb = K.ScaleKernel(b).to(D) if c["scale"] else b
         if c["scale"]:
@@ -467,7 +549,7 @@ def build_structured(torch, gpytorch, c, g):
             top = K.ScaleKernel(inner).to(D)
             with torch.no_grad():
                 top.outputscale = torch.tensor(1.4, dtype=D)
-    return top, inner, lik, X, y, Xs, Xf, yf, cls
+    return top, inner, lik, X, y, Xs, Xf, yf, cls, aux
 
 
 def _strategy_case(torch, gpytorch, c):
@@ -476,25 +558,38 @@ def _strategy_case(torch, gpytorch, c):
     g = gen(torch, c["seed"])
     fam = c["fam"]
     famname = "kiss-dynamic-grid" if (fam == "kiss" and c.get("bounds") is None) else fam
+    if fam == "sgpr" and c.get("nk", "homo") != "homo":
+        famname = "sgpr-%s-noise" % c["nk"]
     cellname = "%s/%s/fpv%d/corr%d/toep%d%s" % (famname, c["solve"], c["fpv"], c.get("corr", 1), c.get("toeplitz", 1), "/fantasy" if c.get("fantasy") else "")
     desc = " ".join("%s=%s" % (k, v) for k, v in sorted(c.items()) if k != "section")
     r = res_cell(["strategy", {k: v for k, v in c.items() if k != "seed"}], "C09/strategy/" + cellname, dict(c, section="strategy"))
     noise, mc = c["noise"], c["mean"]
-    top, inner, lik, X, y, Xs, Xf, yf, cls = build_structured(torch, gpytorch, c, g)
-    model, lik = make_gp(torch, gpytorch, X, y, top, noise, mc, lik)
+    top, inner, lik, X, y, Xs, Xf, yf, cls, aux = build_structured(torch, gpytorch, c, g)
+    homo = aux["nk"] == "homo"
+    if homo:
+        model, lik = make_gp(torch, gpytorch, X, y, top, noise, mc, lik)
+    else:
+        model = make_gp_with(torch, gpytorch, X, y, top, lik, mc)
     for p in model.parameters():
         p.requires_grad_(False)
     model.eval()
     lik.eval()
     n = X.shape[0]
-    noise, mc = float(lik.noise), float(model.mean_module.constant)      # as stored (a Python float goes through float32)
+    mc = float(model.mean_module.constant)      # as stored (a Python float goes through float32)
+    noise = float(lik.noise) if homo else lik_noise_vector(torch, lik, X, aux["needs"])      # scalar, or the per-point variances
     # the twin: same approximate matrix, default strategy
     if fam == "sgpr":
         twin_kernel = sgpr_wrapper_class(torch, gpytorch)(inner, X, bool(c["corr"]))
     else:
         twin_kernel = dense_wrapper_class(gpytorch)(top)
-    twin, tlik = make_gp(torch, gpytorch, X, y, twin_kernel, noise, mc)
-    if abs(float(tlik.noise) - noise) > 1e-12 or abs(float(twin.mean_module.constant) - mc) > 1e-12:
+    if homo:
+        twin, tlik = make_gp(torch, gpytorch, X, y, twin_kernel, noise, mc)
+        same = abs(float(tlik.noise) - noise) <= 1e-12
+    else:
+        tlik = aux["twin"]()
+        twin = make_gp_with(torch, gpytorch, X, y, twin_kernel, tlik, mc)
+        same = bool((lik_noise_vector(torch, tlik, X, aux["needs"]) - noise).abs().max() <= 1e-12) and float(noise.max() - noise.min()) > 1e-3
+    if not same or abs(float(twin.mean_module.constant) - mc) > 1e-12:
         raise core.Machinery("twin hyperparameters differ from the structured model's")
     twin.eval()
     tlik.eval()
@@ -605,69 +700,381 @@ def _strategy_case(torch, gpytorch, c):
 
 
 # ------------------------------------------------------------------------------------------------
-# (4) SGPR objective = Titsias collapsed bound
-def titsias_bound(torch, Kxx_diag, Kxz, Kzz, y, mx, s2):
+# (4) SGPR objective = Titsias collapsed bound, under every noise model of the Gaussian likelihood family
+def titsias_bound(torch, Kxx_diag, Kxz, Kzz, y, mx, noise):
+    """log N(y; m, Qxx + N) - tr(N^-1 (Kxx - Qxx)) / 2 with N = diag(noise) (a scalar noise is one variance for all points)"""
     n = y.shape[0]
+    nz = torch.as_tensor(noise, dtype=torch.float64).expand(n)
     Q = Kxz @ torch.linalg.solve(Kzz, Kxz.transpose(-1, -2))
-    A = Q + s2 * torch.eye(n, dtype=torch.float64)
+    A = Q + torch.diag_embed(nz)
     L = torch.linalg.cholesky(A)
     z = torch.linalg.solve_triangular(L, (y - mx).unsqueeze(-1), upper=False).squeeze(-1)
     logn = -0.5 * (z * z).sum() - L.diagonal().log().sum() - 0.5 * n * math.log(2 * math.pi)
-    return float(logn - (Kxx_diag - Q.diagonal()).sum() / (2 * s2)), float(torch.linalg.cond(A)), float(torch.linalg.cond(Kzz))
+    return float(logn - ((Kxx_diag - Q.diagonal()) / nz).sum() / 2), float(torch.linalg.cond(A)), float(torch.linalg.cond(Kzz))
 
 
-def sgpr_objective(torch, gpytorch, model, lik, X, y):
+def multitask_bound(torch, Kxx_diag, Kxz, Kzz, B, S, Y, M):
+    """collapsed bound of the Kronecker multitask SGPR model: prior K (x) B approximated by Q (x) B (inducing variables: all tasks at the
+    inducing inputs), noise I (x) S (interleaved layout):  log N(vec Y; vec M, Q (x) B + I (x) S) - tr((I (x) S)^-1 ((Kxx - Q) (x) B)) / 2"""
+    n, t = Y.shape
+    Q = Kxz @ torch.linalg.solve(Kzz, Kxz.transpose(-1, -2))
+    A = torch.kron(Q, B) + torch.kron(torch.eye(n, dtype=torch.float64), S)
+    L = torch.linalg.cholesky(A)
+    z = torch.linalg.solve_triangular(L, (Y - M).reshape(-1, 1), upper=False).squeeze(-1)
+    logn = -0.5 * (z * z).sum() - L.diagonal().log().sum() - 0.5 * n * t * math.log(2 * math.pi)
+    trace = (Kxx_diag - Q.diagonal()).sum() * torch.trace(torch.linalg.solve(S, B))
+    return float(logn - trace / 2), float(torch.linalg.cond(A)), float(torch.linalg.cond(Kzz))
+
+
+def sgpr_objective(torch, gpytorch, model, lik, X, y, params=()):
+    """N * ExactMarginalLogLikelihood in training mode (per batch element when the model is batched)"""
     model.train()
     lik.train()
     mll = gpytorch.mlls.ExactMarginalLogLikelihood(lik, model)
     out = model(X)
-    return float(mll(out, y)) * y.shape[0]
+    val = mll(out, y, *params) * out.event_shape.numel()
+    return float(val) if val.dim() == 0 else val.detach().clone()
+
+
+OBJECTIVE_KINDS = NOISE_KINDS + ("homo-batch", "fixed-batch", "fixedadd-batch", "dirichlet", "dirichlet-add", "mtask")
 
 
 def objective_worker(item):
     torch, gpytorch = _imports()
-    D = torch.float64
-    K = gpytorch.kernels
-    settings = gpytorch.settings
     out = []
     for c in item["cases"]:
-        g = gen(torch, c["seed"])
-        n, d, nz = c["n"], c["d"], c["nz"]
-        desc = " ".join("%s=%s" % (k, v) for k, v in sorted(c.items()) if k != "section")
-        r = res_cell(["objective", {k: v for k, v in c.items() if k != "seed"}], "C09/objective/sgpr/%s" % c["solve"], dict(c, section="objective"))
-        X = torch.rand(n, d, generator=g, dtype=D) * 2 - 1
-        Z = torch.rand(nz, d, generator=g, dtype=D) * 2 - 1
-        y = torch.sin(3 * X.sum(-1)) + 0.1 * torch.randn(n, generator=g, dtype=D)
-        b = K.ScaleKernel(base_kernel(torch, gpytorch, c["base"], d, g, ard=(d > 1))).to(D)
-        with torch.no_grad():
-            b.outputscale = 0.8 + float(torch.rand(1, generator=g, dtype=D))
-        lik = gpytorch.likelihoods.GaussianLikelihood().to(D)
-        kern = K.InducingPointKernel(b, inducing_points=Z, likelihood=lik).to(D)
-        model, lik = make_gp(torch, gpytorch, X, y, kern, c["noise"], c["mean"], lik)
-        with torch.no_grad():
-            want, condA, condZ = titsias_bound(torch, b(X, X).to_dense().diagonal(), b(X, Z).to_dense(), b(Z, Z).to_dense(), y,
-                                               float(model.mean_module.constant), float(lik.noise))
-        if condA > 1e4 or condZ > 1e6:
-            r.update(nontrivial=False, n=0)
-            out.append(r)
-            continue
-        cms, tol = [], (1e-7, 1e-8)
-        if c["solve"] == "cg":
-            cms, tol = cg_contexts(settings, n), (2e-5, 2e-5)
-        with ExitStack() as st:
-            for cm in cms:
-                st.enter_context(cm)
-            ok, got = core.guarded(lambda: sgpr_objective(torch, gpytorch, model, lik, X, y))
-        if not ok:
-            fail(r, r["sig"] + "/raises", "%s: %s" % (desc, got))
-        else:
-            ok, why = core.close(torch.tensor(got), torch.tensor(want), *tol)
-            if not ok:
-                fail(r, r["sig"], "%s: N * mll = %.10g but the collapsed bound log N(y; m, Qxx + s2 I) - tr(Kxx - Qxx)/(2 s2) = %.10g (%s)" % (desc, got, want, why))
-        if c["seed"] % 5 == 0:
-            r["sample"] = dict(case=desc, bound=want)
-        out.append(r)
+        out.append(_objective_mtask(torch, gpytorch, c) if c.get("nk") == "mtask" else _objective_case(torch, gpytorch, c))
     return out
+
+
+def _objective_case(torch, gpytorch, c):
+    D = torch.float64
+    K = gpytorch.kernels
+    L = gpytorch.likelihoods
+    settings = gpytorch.settings
+    g = gen(torch, c["seed"])
+    n, d, nz_, nk = c["n"], c["d"], c["nz"], c.get("nk", "homo")
+    desc = " ".join("%s=%s" % (k, v) for k, v in sorted(c.items()) if k != "section")
+    r = res_cell(["objective", {k: v for k, v in c.items() if k != "seed"}], "C09/objective/sgpr/%s/%s" % (nk, c["solve"]), dict(c, section="objective"))
+    X = torch.rand(n, d, generator=g, dtype=D) * 2 - 1
+    Z = torch.rand(nz_, d, generator=g, dtype=D) * 2 - 1
+    y = torch.sin(3 * X.sum(-1)) + 0.1 * torch.randn(n, generator=g, dtype=D)
+    batch = None
+    if nk.endswith("-batch"):
+        batch = [2]
+    labels = None
+    if nk.startswith("dirichlet"):
+        labels = torch.randint(0, 3, (n,), generator=g)
+        labels[:3] = torch.arange(3)
+        batch = [3]
+    bs = torch.Size(batch or [])
+    inner = base_kernel(torch, gpytorch, c["base"], d, g, ard=(d > 1))
+    if batch:       # a batch of GPs with pairwise different hyperparameters
+        kw = dict(ard_num_dims=d if d > 1 else None, batch_shape=bs)
+        inner = (K.RBFKernel(**kw) if c["base"] == "rbf" else K.MaternKernel(nu=2.5, **kw)).to(D)
+        with torch.no_grad():
+            inner.lengthscale = 0.4 + 0.9 * torch.rand(*bs, 1, d if d > 1 else 1, generator=g, dtype=D)
+    b = K.ScaleKernel(inner, batch_shape=bs).to(D)
+    with torch.no_grad():
+        b.outputscale = 0.8 + torch.rand(bs, generator=g, dtype=D) if batch else 0.8 + float(torch.rand(1, generator=g, dtype=D))
+    # the likelihood
+    s2 = float(c["noise"])
+    nv = 0.05 + 0.5 * torch.rand(*bs, n, generator=g, dtype=D)            # per-point variances, pairwise different
+    needs = False
+    if nk in NOISE_KINDS:
+        nm = smooth_noise_model(torch, gpytorch, torch.randn(d, generator=g, dtype=D), 0.05, 0.6) if nk == "hetero" else None
+        lik, needs = make_lik(torch, gpytorch, nk, s2, nv, nm)
+    elif nk == "homo-batch":
+        lik = L.GaussianLikelihood(batch_shape=bs).to(D)
+        with torch.no_grad():
+            lik.noise = s2 * (1.0 + torch.arange(bs[0], dtype=D)).unsqueeze(-1)
+    elif nk in ("fixed-batch", "fixedadd-batch"):
+        lik = L.FixedNoiseGaussianLikelihood(noise=nv.clone(), learn_additional_noise=nk == "fixedadd-batch", batch_shape=bs).to(D)
+        if nk == "fixedadd-batch":
+            with torch.no_grad():
+                lik.second_noise = s2 * (1.0 + torch.arange(bs[0], dtype=D)).unsqueeze(-1)
+    elif nk in ("dirichlet", "dirichlet-add"):
+        lik = L.DirichletClassificationLikelihood(labels, alpha_epsilon=0.05, learn_additional_noise=nk == "dirichlet-add", dtype=D).to(D)
+        if nk == "dirichlet-add":
+            with torch.no_grad():
+                lik.second_noise = s2 * (1.0 + torch.arange(3, dtype=D)).unsqueeze(-1)
+    else:
+        raise core.Machinery("unknown objective noise kind %r" % nk)
+    if labels is not None:
+        Y = lik.transformed_targets.to(D)
+    elif batch:
+        Y = torch.stack([y * (1.0 + 0.5 * k) + 0.2 * k for k in range(bs[0])])
+    else:
+        Y = y
+    kern = K.InducingPointKernel(b, inducing_points=Z, likelihood=lik).to(D)
+    mc = torch.tensor(float(c["mean"]), dtype=D) * (1.0 + torch.arange(bs[0], dtype=D)) if batch else float(c["mean"])
+    model = make_gp_with(torch, gpytorch, X, Y, kern, lik, mc, batch)
+    params = (X,) if needs else ()
+    with torch.no_grad():
+        nvec = lik_noise_vector(torch, lik, X, needs)                    # (*bs, n) as the likelihood reports it
+        if nk == "homo" and abs(float(nvec[0]) - float(lik.noise)) > 1e-12 or nvec.shape != torch.Size([*bs, n]):
+            raise core.Machinery("noise vector read back from the likelihood has shape %s" % (tuple(nvec.shape),))
+        # the noise the family member DENOTES, assembled here from its parameters (property level: not read through _shaped_noise_covar)
+        if nk == "homo":
+            meant = torch.full((n,), float(lik.noise), dtype=D)
+        elif nk == "fixed" or nk == "fixed-batch":
+            meant = nv
+        elif nk == "fixedadd":
+            meant = nv + float(lik.second_noise)
+        elif nk == "hetero":
+            meant = nm(X).mean
+        elif nk == "homo-batch":
+            meant = lik.noise.expand(*bs, n)
+        elif nk == "fixedadd-batch":
+            meant = nv + lik.second_noise
+        elif nk == "dirichlet":
+            meant = lik.noise_covar.noise
+        else:
+            meant = lik.noise_covar.noise + lik.second_noise
+        meant = meant.to(D).expand(*bs, n)
+        wants, conds = [], []
+        for k in range(bs[0] if batch else 1):
+            bk = b[k] if batch else b
+            mk = float(model.mean_module.constant[k]) if batch else float(model.mean_module.constant)
+            w, condA, condZ = titsias_bound(torch, bk(X, X).to_dense().diagonal(), bk(X, Z).to_dense(), bk(Z, Z).to_dense(), Y[k] if batch else Y, mk,
+                                            meant[k] if batch else meant)
+            wants.append(w)
+            conds.append((condA, condZ))
+    if any(ca > 1e4 or cz > 1e6 for ca, cz in conds):
+        r.update(nontrivial=False, n=0)
+        return r
+    cms, tol = [], (1e-7, 1e-8)
+    if c["solve"] == "cg":
+        cms, tol = cg_contexts(settings, n), (2e-5, 2e-5)
+    with ExitStack() as st:
+        for cm in cms:
+            st.enter_context(cm)
+        ok, got = core.guarded(lambda: sgpr_objective(torch, gpytorch, model, lik, X, Y, params))
+    if not ok:
+        return fail(r, r["sig"] + "/raises", "%s: %s" % (desc, got))
+    gt = torch.as_tensor(got, dtype=D).reshape(-1)
+    wt = torch.tensor(wants, dtype=D)
+    if gt.shape != wt.shape:
+        return fail(r, r["sig"] + "/shape", "%s: the objective has shape %s for a model of batch shape %s" % (desc, tuple(torch.as_tensor(got).shape), list(bs)))
+    ok, why = core.close(gt, wt, *tol)
+    if not ok:
+        fail(r, r["sig"], "%s: N * mll = %s but the collapsed bound log N(y; m, Qxx + N) - tr(N^-1 (Kxx - Qxx))/2 with N = diag(noise of the %s likelihood) = %s (%s)" % (
+            desc, [float("%.10g" % v) for v in gt], nk, [float("%.10g" % v) for v in wt], why))
+    if c["seed"] % 5 == 0:
+        r["sample"] = dict(case=desc, bound=wants)
+    return r
+
+
+MTASK_NOISES = (("global", 0, 1, 0), ("task-diag", 0, 0, 1), ("global+task-diag", 0, 1, 1), ("global+task-rank1", 1, 1, 1), ("task-full-rank", -1, 0, 1))
+
+
+def _objective_mtask(torch, gpytorch, c):
+    """MultitaskKernel(InducingPointKernel) under MultitaskGaussianLikelihood: the multitask branch of the added loss term"""
+    D = torch.float64
+    K = gpytorch.kernels
+    g = gen(torch, c["seed"])
+    n, d, nz_, t = c["n"], c["d"], c["nz"], c["t"]
+    name, rank_noise, has_global, has_task = [m for m in MTASK_NOISES if m[0] == c["mnoise"]][0]
+    rank_noise = t if rank_noise < 0 else rank_noise
+    desc = " ".join("%s=%s" % (k, v) for k, v in sorted(c.items()) if k != "section")
+    # the cells the unchanged tree is expected to satisfy (unit task variances, diagonal task noise) are kept apart from the others
+    area = "correlated-task-noise" if rank_noise > 0 else ("task-covar-not-unit-diagonal" if not c["bunit"] else "unit-task-diag")
+    r = res_cell(["objective", {k: v for k, v in c.items() if k != "seed"}], "C09/objective/sgpr-multitask/%s/%s" % (area, name), dict(c, section="objective"))
+    X = torch.rand(n, d, generator=g, dtype=D) * 2 - 1
+    Z = torch.rand(nz_, d, generator=g, dtype=D) * 2 - 1
+    Y = torch.sin(3 * X.sum(-1, keepdim=True) + torch.arange(t, dtype=D)) + 0.1 * torch.randn(n, t, generator=g, dtype=D)
+    lik = gpytorch.likelihoods.MultitaskGaussianLikelihood(num_tasks=t, rank=rank_noise, has_global_noise=bool(has_global), has_task_noise=bool(has_task)).to(D)
+    base = base_kernel(torch, gpytorch, c["base"], d, g, ard=(d > 1))
+    ipk = K.InducingPointKernel(base, inducing_points=Z, likelihood=lik).to(D)
+    mk = K.MultitaskKernel(ipk, num_tasks=t, rank=c["rank"]).to(D)
+
+    class M(gpytorch.models.ExactGP):
+        def __init__(s_):
+            super().__init__(X, Y, lik)
+            s_.mean_module = gpytorch.means.MultitaskMean(gpytorch.means.ConstantMean(), num_tasks=t)
+            s_.covar_module = mk
+
+        def forward(s_, x):
+            return gpytorch.distributions.MultitaskMultivariateNormal(s_.mean_module(x), s_.covar_module(x))
+    model = M().to(D)
+    ik = mk.task_covar_module
+    with torch.no_grad():
+        for a_, mm in enumerate(model.mean_module.base_means):
+            mm.constant = torch.tensor(0.2 * a_ - 0.1, dtype=D)
+        F = 0.6 * torch.rand(t, c["rank"], generator=g, dtype=D) - 0.3
+        ik.covar_factor.copy_(F)
+        ik.var = (1.0 - (F * F).sum(-1)) if c["bunit"] else 0.3 + torch.rand(t, generator=g, dtype=D)
+        S = torch.zeros(t, t, dtype=D)
+        if has_global:
+            lik.noise = torch.tensor(0.1 + float(c["noise"]), dtype=D)
+            S = S + float(lik.noise) * torch.eye(t, dtype=D)
+        if has_task:
+            if rank_noise == 0:
+                lik.task_noises = 0.1 + 0.4 * torch.rand(t, generator=g, dtype=D)
+                S = S + torch.diag_embed(lik.task_noises)
+            else:
+                lik.task_noise_covar_factor.copy_((0.5 * torch.eye(t, dtype=D) + 0.1 + 0.2 * torch.rand(t, t, generator=g, dtype=D))[:, :rank_noise])
+                S = S + lik.task_noise_covar_factor @ lik.task_noise_covar_factor.transpose(-1, -2)
+        B = F @ F.transpose(-1, -2) + torch.diag_embed(ik.var)
+        Mx = torch.stack([mm.constant.expand(n) for mm in model.mean_module.base_means], -1)
+        want, condA, condZ = multitask_bound(torch, base(X, X).to_dense().diagonal(), base(X, Z).to_dense(), base(Z, Z).to_dense(), B, S, Y, Mx)
+    if condA > 1e4 or condZ > 1e6:
+        r.update(nontrivial=False, n=0)
+        return r
+    ok, got = core.guarded(lambda: sgpr_objective(torch, gpytorch, model, lik, X, Y))
+    if not ok:
+        return fail(r, r["sig"] + "/raises", "%s: %s" % (desc, got))
+    ok, why = core.close(torch.tensor(got), torch.tensor(want), 1e-7, 1e-8)
+    if not ok:
+        fail(r, r["sig"], "%s: N * mll = %.10g but the collapsed bound of the Kronecker multitask model, log N(vec Y; vec M, Qxx (x) B + I (x) S) - tr(Kxx - Qxx) tr(S^-1 B) / 2 "
+             "(B the task covariance, S the task noise covariance) = %.10g (%s)" % (desc, got, want, why))
+    return r
+
+
+# (6) histories of the grid kernels (Structured.tla part "gridsm"): after every step the kernel must denote W K_UU W^T of its CURRENT grid
+GSM_SIZES = {"fixed": {1: [8], 2: [6, 7]}, "dyn": {1: [8], 2: [6, 7]}, "plain": {1: [5], 2: [3, 4]}}
+GSM_BOUNDS = {0: [(0.0, 1.0), (0.0, 1.0)], 1: [(-1.0, 2.0), (-0.5, 1.5)], 2: [(-0.3, 1.4), (-2.0, 3.0)]}      # grid id -> bounds per dimension (all cover [0, 1]^d)
+GSM_AFFINE = [(0.0, 1.0), (0.3, 0.7)]                                                                        # "dyn": dimension i sees a_i + s_i * u, u in the spec's range
+
+
+def gsm_grid(torch, kind, d, gid):
+    from gpytorch.utils.grid import create_grid
+    sizes = GSM_SIZES[kind][d]
+    if kind == "plain":       # equally spaced, a different spacing per grid id and dimension
+        return [torch.linspace(GSM_BOUNDS[gid][i][0], GSM_BOUNDS[gid][i][1], sizes[i], dtype=torch.float64) for i in range(d)]
+    return create_grid(sizes, GSM_BOUNDS[gid][:d], dtype=torch.float64)
+
+
+def gsm_kernel(torch, gpytorch, kind, d, base, gid=0):
+    K = gpytorch.kernels
+    D = torch.float64
+    if kind == "plain":
+        return K.GridKernel(base, grid=[t.clone() for t in gsm_grid(torch, kind, d, gid)]).to(D)
+    if kind == "dyn":
+        return K.GridInterpolationKernel(base, grid_size=list(GSM_SIZES[kind][d]), num_dims=d).to(D)
+    kern = K.GridInterpolationKernel(base, grid_size=list(GSM_SIZES[kind][d]), grid_bounds=GSM_BOUNDS[gid][:d]).to(D)
+    kern.update_grid([t.clone() for t in gsm_grid(torch, kind, d, gid)])          # float64 grid (the constructor's is float32 cast)
+    return kern
+
+
+def gridsm_worker(item):
+    torch, gpytorch = _imports()
+    return [_gridsm_case(torch, gpytorch, c) for c in item["cases"]]
+
+
+def _gridsm_case(torch, gpytorch, c):
+    import copy
+    D = torch.float64
+    settings = gpytorch.settings
+    kind, d, toep, hist = c["kind"], c["d"], bool(c["toep"]), c["hist"]
+    g = gen(torch, c["seed"])
+    names = []
+    for st in hist:
+        names.append(("refit" if st.get("refit") else "eval") if st["a"] == "eval" else st["a"])
+    desc = "%s kernel d=%d use_toeplitz=%s start=%s history=%s" % (
+        {"fixed": "GridInterpolationKernel(grid_bounds)", "dyn": "GridInterpolationKernel(dynamic grid)", "plain": "GridKernel"}[kind], d, toep, c["mode0"],
+        " > ".join("%s%s" % (nm, "(%s)" % ",".join(str(v) for v in st["x"]) if st["a"] == "eval" else ("(%s)" % st.get("g", st.get("mode")))) for nm, st in zip(names, hist)))
+    moved = any(nm in ("update", "load") for nm in names) or names.count("refit") > 1
+    r = res_cell(["gridsm", kind, d, int(toep), c["mode0"], [[st["a"]] + [st.get(k) for k in ("x", "g", "mode")] for st in hist]],
+                 "C09/gridsm/%s" % kind, dict(c, section="gridsm"), nontrivial=moved)
+    base = base_kernel(torch, gpytorch, "rbf", d, g, ard=(d > 1))
+
+    def sig(k, what=""):
+        prev = names[k - 1] if k else "construction"
+        return "C09/gridsm/%s/%s-mode/%s-after-%s%s" % (kind, hist[k]["mode"], names[k], prev, what)
+
+    with torch.no_grad():
+        ok, kern = core.guarded(lambda: gsm_kernel(torch, gpytorch, kind, d, base))
+        if not ok:
+            return fail(r, "C09/gridsm/%s/constructor-raises" % kind, "%s: %s" % (desc, kern))
+        kern.train(c["mode0"] == "train")
+        for k, st in enumerate(hist):
+            a = st["a"]
+            if a == "switch":
+                ok, e = core.guarded(lambda: kern.train(st["mode"] == "train"))
+                if not ok:
+                    return fail(r, "C09/gridsm/%s/switch-raises" % kind, "%s: step %d: %s" % (desc, k, e))
+                continue
+            if a == "update":
+                ok, e = core.guarded(lambda: kern.update_grid([t.clone() for t in gsm_grid(torch, kind, d, st["g"])]))
+                if not ok:
+                    return fail(r, "C09/gridsm/%s/update_grid-raises" % kind, "%s: step %d: %s" % (desc, k, e))
+                continue
+            if a == "load":
+                donor = gsm_kernel(torch, gpytorch, kind, d, copy.deepcopy(base), st["g"])
+                ok, e = core.guarded(lambda: kern.load_state_dict(donor.state_dict()))
+                if not ok:
+                    return fail(r, "C09/gridsm/%s/load_state_dict-raises" % kind, "%s: step %d: %s" % (desc, k, e))
+                continue
+            # ---- an evaluation
+            if kern.training != (st["mode"] == "train"):
+                raise core.Machinery("mode of the replayed kernel differs from the spec's at step %d: %s" % (k, desc))
+            if kind == "dyn":
+                def draw(rng, exact, n):
+                    lo, hi = rng[0] / 2.0, rng[1] / 2.0
+                    if not exact:
+                        lo, hi = lo + 0.02 * (hi - lo), hi - 0.02 * (hi - lo)
+                    u = lo + (hi - lo) * torch.rand(n, d, generator=g, dtype=D)
+                    if exact:
+                        u[0], u[1] = lo, hi
+                    return torch.stack([GSM_AFFINE[i][0] + GSM_AFFINE[i][1] * u[:, i] for i in range(d)], -1)
+                ranges = {"A": (0, 2), "B": (-2, 4), "C": (6, 10)}
+                x1 = draw(ranges[st["x"][0]], st["refit"], 4)
+                x2 = x1 if st["x"][0] == st["x"][1] else draw(ranges[st["x"][1]], st["refit"], 3)
+                before = [t.clone() for t in kern.grid]
+            elif kind == "fixed":
+                x1 = 0.05 + 0.9 * torch.rand(4, d, generator=g, dtype=D)
+                x2 = x1 if st["x"][0] else 0.05 + 0.9 * torch.rand(3, d, generator=g, dtype=D)
+            else:
+                want_grid = gsm_grid(torch, kind, d, st["grid"][0])
+                from gpytorch.utils.grid import create_data_from_grid
+                pts = create_data_from_grid(want_grid)
+                x1 = pts if st["x"][0] else 0.05 + 0.9 * torch.rand(4, d, generator=g, dtype=D)
+                x2 = x1 if st["x"][0] else 0.05 + 0.9 * torch.rand(3, d, generator=g, dtype=D)
+            with settings.use_toeplitz(toep):
+                ok, got = core.guarded(lambda: kern(x1, x2).to_dense())
+            if not ok:
+                return fail(r, sig(k, "/raises"), "%s: step %d: %s" % (desc, k, got))
+            cur = [t.clone() for t in kern.grid]
+            last = k == len(hist) - 1          # the verdict is taken at the last step (every prefix is a history of its own)
+            if kind != "dyn":
+                # the current grid is the one last supplied (constructor / update_grid / load_state_dict)
+                want_grid = gsm_grid(torch, kind, d, st["grid"][0])
+                if len(cur) != len(want_grid) or not all(torch.equal(p, q) for p, q in zip(cur, want_grid)):
+                    return fail(r, sig(k, "/grid"), "%s: step %d: kernel.grid is not the grid last supplied (grid %d)" % (desc, k, st["grid"][0]))
+            else:
+                changed = not all(torch.equal(p, q) for p, q in zip(cur, before))
+                if changed != bool(st["refit"]):
+                    r["drift"] = "gridsm dyn: step %d of %s: the grid %s, the model says refit = %s" % (k, desc, "moved" if changed else "stayed", st["refit"])
+            if not last:
+                continue
+            if kind == "plain":
+                if not torch.equal(kern.full_grid, create_data_from_grid(want_grid)):
+                    return fail(r, sig(k, "/full_grid"), "%s: step %d: full_grid is not the point set of the current grid" % (desc, k))
+                want = product_of_1d(torch, base, x1, x2) if st["x"][0] else base(x1, x2).to_dense()
+                what = "prod_c k_c on the points of the CURRENT grid" if st["x"][0] else "the base kernel (off the grid)"
+                tol = (1e-9, 1e-11)
+            else:
+                want = ski_dense(torch, base, cur, x1, x2)
+                what = "W1 K_UU W2^T with K_UU the base kernel on the points of the CURRENT grid"
+                tol = (1e-8, 1e-10)
+            ok, why = core.close(got, want, *tol)
+            if not ok:
+                return fail(r, sig(k), "%s: step %d: the evaluated kernel differs from %s: %s" % (desc, k, what, why))
+            # a fresh kernel with the same grid, no history
+            fresh = gsm_kernel(torch, gpytorch, "fixed" if kind == "dyn" else kind, d, base)
+            fresh.update_grid([t.clone() for t in cur])
+            fresh.train(kern.training)
+            with settings.use_toeplitz(toep):
+                ok, ref = core.guarded(lambda: fresh(x1, x2).to_dense())
+            if not ok:
+                raise core.Machinery("fresh kernel raises: %s: %s" % (desc, ref))
+            ok, why = core.close(got, ref, 1e-10, 1e-12)
+            if not ok:
+                return fail(r, sig(k, "/vs-fresh"), "%s: step %d: differs from a fresh kernel with the same grid and mode: %s" % (desc, k, why))
+    if c["seed"] % 211 == 0:
+        r["sample"] = dict(case=desc)
+    return r
 
 
 # ------------------------------------------------------------------------------------------------
